@@ -79,6 +79,7 @@ type Options struct {
 	Eol        int
 	StrForm    int
 	HexUpper   bool // upper-case hex digits in the eexec section
+	HexBreak   int  // hex digits per line of the eexec section: 0 = 64, 1 = 63, 2 = 7, 3 = 1 (white space may stand anywhere, also inside a byte)
 	// Dense: Adobe's customary dense style (no spaces where none are needed,
 	// readonly/noaccess decorations, FontBBox as a procedure, UniqueID, extra
 	// DSC comments, OtherSubrs and StemSnap entries).
@@ -505,14 +506,20 @@ func Generate(m *t1model.Font, opt *Options) ([]byte, error) {
 		if opt.HexUpper {
 			digits = "0123456789ABCDEF"
 		}
-		for i, c := range cipher {
-			out.WriteByte(digits[c>>4])
-			out.WriteByte(digits[c&15])
-			if i%32 == 31 {
-				out.WriteString(eol)
+		perLine := []int{64, 63, 7, 1}[opt.HexBreak]
+		nd := 0
+		for _, c := range cipher {
+			for _, d := range []byte{digits[c>>4], digits[c&15]} {
+				out.WriteByte(d)
+				nd++
+				// (the form is recognised by the first four cipher bytes being hex
+				// digits: no white space inside the first eight digits)
+				if nd%perLine == 0 && nd >= 8 {
+					out.WriteString(eol)
+				}
 			}
 		}
-		if len(cipher)%32 != 0 {
+		if nd%perLine != 0 {
 			out.WriteString(eol)
 		}
 		out.Write(trailer.buf.Bytes())
